@@ -2,6 +2,7 @@ from __future__ import annotations
 
 import logging
 import os.path
+import shlex
 import socket
 import sys
 import time
@@ -304,7 +305,8 @@ class VNCLoggingServerProxy(portforward.ProxyServer, RFBServer):  # type: ignore
     def handle_keyEvent(self, key: int, down: bool) -> None:
         now = time.time()
 
-        rev = REVERSE_MAP.get(key, chr(key))
+        # quote characters that are special in the script syntax (# ' " ...)
+        rev = shlex.quote(REVERSE_MAP.get(key, chr(key)))
 
         cmds = ["pause", "%.4f" % (now - self.last_event)]
         self.last_event = now
